@@ -169,7 +169,9 @@ def noCacheUnqualified (R : Reader) (h : Header) : Bool :=
 /-- field names listed by a qualified no-cache directive -/
 def noCacheFields (R : Reader) (h : Header) : List Str :=
   match R.read h (str% "no-cache") with
-  | some (some a) => ((splitList a false []).map trimOWS).filter (!·.isEmpty)
+  -- (the argument, once unquoted, is a list of field names — tokens: it is split at EVERY comma; a quote that
+  --  was escaped inside the quoted-string is a byte of a bogus name, not the start of another quoted-string)
+  | some (some a) => ((splitOnComma a []).map trimOWS).filter (!·.isEmpty)
   | _ => []
 
 /-- validation that nothing may waive (C02): unqualified response no-cache, stale + must-revalidate,
